@@ -303,6 +303,10 @@ func updateRecInfo(rt RecordType, rinfo RecordTypeInfo) {
 	dict.Add(g_recInfoDic, rtToKey(rt), rinfo)
 }
 
+func hasRecInfo(rt RecordType) bool {
+	return dict.ContainsKey(g_recInfoDic, rtToKey(rt))
+}
+
 func lookupPairByName(targetName string, pairs []NameTypePair) NameTypePair {
 	res := frt.Pipe(pairs, (func(_r0 []NameTypePair) []NameTypePair {
 		return slice.Filter(func(x NameTypePair) bool {
